@@ -3,7 +3,7 @@
 # (and twice at 16); the per-index event hashes must be identical. Also validates a dry-run evidence file.
 set -u
 V=${1:-/verif}; B=$V/build; T=$B/selftest; rm -rf $T; mkdir -p $T/ev $T/rp
-N=${SELFTEST_RUNS:-300}
+N=${SELFTEST_RUNS:-2000}
 fail=0
 for p in C03 C05 C07 C11 C12 C13 C14 C15 C17 C20; do
   for w in 1 5 16 16b; do
